@@ -84,7 +84,9 @@ def Factory(hook: PluginManager) -> Callable[[], TraceFunction]:
 
             if keyboard_interrupt_raised:
                 # Reraise after the "with" block so that gen.throw() is not called.
-                raise KeyboardInterrupt
+                # "from None": the original exception, raised inside the trace
+                # function, is not to be shown as the context of this one.
+                raise KeyboardInterrupt from None
 
         return WithContext(trace, context=_context)
 
